@@ -2,9 +2,7 @@ package fixedn
 
 import (
 	"errors"
-	"fmt"
 	"math/big"
-	"strconv"
 	"strings"
 )
 
@@ -38,19 +36,20 @@ func pow10(n int) *big.Int {
 
 // ToString converts a big decimal with the specified precision to a string.
 func ToString(bi *big.Int, precision int) string {
-	var dp, fp big.Int
-	dp.QuoRem(bi, pow10(precision), &fp)
+	var abs, dp, fp big.Int
+	abs.Abs(bi)
+	dp.QuoRem(&abs, pow10(precision), &fp)
 
 	var s = dp.String()
+	if bi.Sign() < 0 {
+		s = "-" + s
+	}
 	if fp.Sign() == 0 {
 		return s
 	}
-	frac := fp.Uint64()
-	trimmed := 0
-	for ; frac%10 == 0; frac /= 10 {
-		trimmed++
-	}
-	return s + "." + fmt.Sprintf("%0"+strconv.FormatUint(uint64(precision-trimmed), 10)+"d", frac)
+	frac := fp.String()
+	frac = strings.Repeat("0", precision-len(frac)) + frac
+	return s + "." + strings.TrimRight(frac, "0")
 }
 
 // FromString converts a string to a big decimal with the specified precision.
@@ -68,12 +67,15 @@ func FromString(s string, precision int) (*big.Int, error) {
 	if len(parts[1]) > precision {
 		return nil, ErrInvalidFormat
 	}
+	if strings.ContainsAny(parts[1], "+-_") {
+		return nil, ErrInvalidFormat
+	}
 	fp, ok := new(big.Int).SetString(parts[1], 10)
 	if !ok {
 		return nil, ErrInvalidFormat
 	}
 	fp.Mul(fp, pow10(precision-len(parts[1])))
-	if bi.Sign() == -1 {
+	if strings.HasPrefix(parts[0], "-") {
 		return bi.Sub(bi, fp), nil
 	}
 	return bi.Add(bi, fp), nil
